@@ -174,10 +174,11 @@ struct DTask : Task {
 struct DRule : Rule {
   int k;
   DRule(const KeyType& key, int k, uint64_t sig) : Rule(key, basic::CommandSignature(sig)), k(k) {}
-  Task* createTask(BuildEngine&) override { ev("create %d", k); return new DTask(k, signature.value); }
+  // rule callbacks are cancellation points too (cancel=cb:n counts them together with the task callbacks)
+  Task* createTask(BuildEngine&) override { ev("create %d", k); count_cb(); return new DTask(k, signature.value); }
   bool isResultValid(BuildEngine&, const ValueType& v) override {
     bool r = true; if (def(k).obs) { Val x = dec(v); r = !x.empty && x.s == g_env[k]; }
-    ev("valid %d %d", k, r ? 1 : 0); return r;
+    ev("valid %d %d", k, r ? 1 : 0); count_cb(); return r;
   }
   void updateStatus(BuildEngine&, StatusKind s) override { /* status changes are checked by the protocol automaton */ (void)s; }
 };
